@@ -31,12 +31,18 @@ def post(scn, tr, a):
         qual = [c for c in scn["conns"] if c.get("async") and common(path[c["src"]], path[c["dst"]]) >= 1
                 and c["src"] in weak_into]
         v["async_source_with_substeps_in_shared_group"] = bool(qual)
-        if qual and tr.get("sched", {}).get("policy") != "replay":
+        if qual:
             # counterfactual at the scenario level: the same scenario without the async_requests flags,
             # same schedule policy and seed, completes
             from ..build import run_case
-            scn2 = dict(scn, conns=[{k: x for k, x in c.items() if k != "async"} for c in scn["conns"]])
-            sched2 = {k: x for k, x in tr["sched"].items() if k not in ("schedule",)}
+            # (the agents keep their behaviour - same random draws - but do not issue the requests, which
+            # would be refused without the flag)
+            scn2 = dict(scn, conns=[{k: x for k, x in c.items() if k != "async"} for c in scn["conns"]],
+                        sims=[dict(s_, beh=dict(s_["beh"], agent=dict(s_["beh"]["agent"], dry=True)))
+                              if s_["beh"].get("agent") else s_ for s_ in scn["sims"]])
+            sched2 = {k: x for k, x in tr["sched"].items() if k not in ("schedule", "orig_policy")}
+            if sched2.get("policy") == "replay":       # a replayed witness: the policy it was found under
+                sched2["policy"] = tr["sched"].get("orig_policy", "random")
             tr2 = run_case(scn2, sched2)
             v["completes_without_async_flags"] = tr2["outcome"]["kind"] == "ok"
     return []
